@@ -12,7 +12,10 @@ Case (driver "uploads"):
    "reply": "ok" | {"rejected": 5xx code},           optional (default "ok"): what R carries
    "refuse": null | "crlf" | "v3-rsa",               optional, ephemeral kinds: a key txtorcon itself refuses
    "app_listener": bool,                             optional: the application has its own HS_DESC listener
-   "fv": 2 | 3}                                      optional: address version of the foreign service (default: ours)
+   "fv": 2 | 3,
+   "last": 0..31,                                    optional: last base32 character of a v2 own address that is not tied to a real key
+   "burst": int}                                     optional: this many events after R are emitted by Tor the moment it accepted the
+                                                     command, i.e. under the event set it had then                                      optional: address version of the foreign service (default: ours)
      R = the ADD_ONION / SETCONF reply arrives;  o = HS_DESC event of the service itself,
      f = of a second (foreign) service, ACTION in UPLOAD/UPLOADED/FAILED, dir = directory index
      (equal indices = the same HSDir);  c = an HS_DESC CREATED event (noise Tor also sends).
@@ -78,12 +81,15 @@ ASSUMPTIONS = [
     "the progress callback's values are recorded (labels) but not judged: the statement does not constrain them and txtorcon's old-Tor path deliberately reports 102..106",
     "when the command is rejected and the address is known in advance (filesystem kinds: hostname file; auth with a supplied key) events carrying that address may still flow - the address may belong to a service that already runs (re-sent HiddenServiceDir block, 550 collision) - at any position, also settling the wait before the rejection arrives; create() still stays pending until the rejection and then fails with Tor's error; the subscription is judged by the last SETEVENTS the server actually received and by the listener table",
     "the foreign service may be of the other address version (v2 next to v3 and vice versa): it is still a foreign service",
+    "the reference Tor sends an HS_DESC event only if HS_DESC is in the event set it most recently accepted through SETEVENTS when the event is emitted; with 'burst' the events right after the reply are emitted on acceptance of the command, before Tor reads anything else the controller wrote; an own event Tor did not send while the creation was undecided makes the model's decision unreachable and is reported (the unchanged tree subscribes before it sends the command, so it hears everything)",
+    "v2 addresses not tied to a real RSA key (ephemeral, filesystem, auth+DISCARD) end in every base32 character by construction, o/n/i included; real v3 addresses always end in 'd'",
     "rejection texts are short ASCII; the codes are the ones Tor uses for ADD_ONION/SETCONF (512, 513, 550, 551, 552, 553)",
     "Tor reports a version >= 0.2.7.2 (older ones have no usable HS_DESC and txtorcon documents that it then declares success at once)",
     "a discrepancy that disappears when the foreign service's UPLOADED events on directories the own service is uploading to are removed from the history is attributed to the known finding 'UPLOADED matched by directory only'; everything else keeps its own tag",
 ]
 
 ACTIONS = ("UPLOAD", "UPLOADED", "FAILED")
+B32 = "abcdefghijklmnopqrstuvwxyz234567"
 REJECT_CODES = [512, 513, 550, 551, 552, 553]
 REJECT_TEXTS = {512: "Bad arguments to ADD_ONION", 513: "Unacceptable option value", 550: "Onion address collision",
                 551: "Failed to generate RSA key", 552: "Unrecognized option", 553: "Unable to set option"}
@@ -180,6 +186,10 @@ class _Obs(object):
         self.pre_outcome_after_reply = False
         self.vs = "counted"
         self.settled_before_rejection = None
+        self.last_char = None
+        self.undelivered_own = 0    # own events Tor did not send because HS_DESC was not in its event set
+        self.delivered = 0
+        self.burst_used = False
         self.alive = None
         self.failed_at = None       # never-exists class: step index at which create() must have failed (-1 = at once)
 
@@ -203,6 +213,16 @@ def _execute(case, steps):
     else:
         own = onionref.service_id(version, n)
         foreign = onionref.service_id(case.get("fv") or version, n + 1000)
+
+    # the last character of a v2 address that is not tied to a real RSA key walks the base32 alphabet
+    # (a real v3 address always ends in 'd': version byte)
+    last = case.get("last")
+    free_addr = kind in ("ephemeral", "fs") or (kind == "auth" and case["key"] == "discard")
+    if last is not None and version == 2 and free_addr:
+        own = onionref.service_id(2, n)[:-1] + B32[last % 32]
+        if own == foreign:
+            foreign = foreign[:-1] + B32[(last + 1) % 32]
+        ob.last_char = own[-1]
 
     tor = onionref.OnionTor()          # ADD_ONION and SETCONF are held until the "R" step
     reactor = onionref.FakePortReactor([40000 + i for i in range(4)])
@@ -296,18 +316,38 @@ def _execute(case, steps):
 
             replied = False
             fver = case.get("fv") or version
+            burst_state = {"left": 0, "frozen": False}
+
+            def emit(own_and_relevant):
+                """Tor sends an event only if HS_DESC is in the event set it accepted most recently"""
+                if burst_state["left"] > 0:
+                    burst_state["left"] -= 1
+                    ob.burst_used = True
+                    sub = burst_state["frozen"]
+                else:
+                    sub = tor.subscribed("HS_DESC")
+                if sub:
+                    ob.delivered += 1
+                elif own_and_relevant and ob.failed_at is None:
+                    ob.undelivered_own += 1
+                return sub
             for i, s in enumerate(steps):
                 if s[0] == "R":
                     replied = True
                     if code is not None:
                         ob.failed_at = i
                         ob.settled_before_rejection = ref.decision
+                    # Tor may start (and finish) uploads the moment it accepted the command, before it reads
+                    # anything else the controller wrote: the next `burst` events see the event set of now
+                    burst_state["left"] = int(case.get("burst") or 0)
+                    burst_state["frozen"] = tor.subscribed("HS_DESC")
                     tor.reply(reply)
                 elif s[0] == "c":
                     addr = own if s[1] == "o" else foreign
                     ver = version if s[1] == "o" else fver
-                    tor.event(onionref.hs_desc("CREATED", addr, "UNKNOWN", descid=onionref.desc_id(ver, 7),
-                                               extra="REPLICA=0" if ver == 2 else None))
+                    if emit(s[1] == "o" and ref.decision is None):
+                        tor.event(onionref.hs_desc("CREATED", addr, "UNKNOWN", descid=onionref.desc_id(ver, 7),
+                                                   extra="REPLICA=0" if ver == 2 else None))
                 else:
                     is_own = s[0] == "o"
                     act, dnum = s[1], s[2]
@@ -327,6 +367,7 @@ def _execute(case, steps):
                         reason = FAILED_REASONS[(dnum * 7 + i + case.get("n", 0)) % len(FAILED_REASONS)]
                         ev = onionref.hs_desc("FAILED", addr, hsd, descid=onionref.desc_id(ver, dnum),
                                               reason=reason)
+                    undecided_before = ref.decision is None or ref_u.decision is None
                     ref.feed(is_own, act, hsd)
                     if is_own and eph and not replied:
                         ob.pre_reply_own += 1
@@ -336,7 +377,8 @@ def _execute(case, steps):
                         ref_u.feed(is_own, act, hsd)      # outcomes of unrecorded uploads are ignored by the model
                     if is_own and replied and hsd in pre_dirs and act != "UPLOAD":
                         ob.pre_outcome_after_reply = True
-                    tor.event(ev)
+                    if emit(is_own and undecided_before):
+                        tor.event(ev)
 
                 want = ref.decision if replied else None
                 want_u = ref_u.decision if replied else None
@@ -408,7 +450,7 @@ def _execute(case, steps):
             if tor.pipe.escaped:
                 ob.problems.append(("exception-escaped", repr(tor.pipe.escaped[0])))
             ob.app_events = len(app_events)
-            ob.hs_events = sum(1 for s in steps if s[0] != "R")
+            ob.hs_events = ob.delivered
             if case.get("app_listener") and ob.app_events != ob.hs_events:
                 ob.problems.append(("application-listener-missed-events", "%d HS_DESC events delivered, the "
                                     "application's listener saw %d" % (ob.hs_events, ob.app_events)))
@@ -425,6 +467,9 @@ def _symptom_tag(case, ob):
         # want is "pending" before the rejection and "failure" from then on
         return {"not-failed": "rejected-create-not-failed", "wrong-outcome": "rejected-create-succeeded",
                 "completed-early": "rejected-create-succeeded", "failed-early": "rejected-create-failed-early"}[sym]
+    if ob.undelivered_own and sym in ("not-completed", "not-failed"):
+        # Tor never sent them: HS_DESC was not (yet) in its event set when the service's uploads happened
+        return "not-subscribed-when-own-upload-events-were-emitted"
     if ob.pre_reply_own and ob.pre_outcome_after_reply and sym in ("not-failed", "completed-early", "not-completed"):
         # the outcome of an upload whose start was (possibly) not recorded took part in the count
         return "outcome-of-unrecorded-upload-counted"
@@ -497,6 +542,14 @@ def drive_uploads(case):
             res.label("foreign-other-version+shared-dir")
     if ob.taints:
         res.label("foreign-UPLOADED-on-own-attempted-dir")
+    if ob.last_char is not None:
+        res.label("own-v2-address-ends-in:" + ("o/n/i" if ob.last_char in "oni" else "other"))
+        if kind == "auth":
+            res.label("auth-discard-address-ends-in:" + ob.last_char)
+    if ob.burst_used:
+        res.label("uploads-emitted-on-acceptance-of-command")
+    if ob.undelivered_own:
+        res.label("own-event-not-sent-for-lack-of-subscription")
     if ob.pre_reply_own:
         res.label("own-event-before-ADD_ONION-reply")
         if ob.pre_outcome_after_reply:
@@ -592,6 +645,9 @@ def cases(draw):
         case["trace"] = trace
     if draw(st.integers(0, 5)) == 0 or (outcome != "ok" and draw(st.booleans())):
         case["app_listener"] = True
+    case["last"] = draw(st.one_of(st.sampled_from([8, 13, 14]), st.integers(0, 31)))     # i, n, o / any
+    if draw(st.integers(0, 2)) == 0:
+        case["burst"] = draw(st.integers(1, 6))
     if draw(st.integers(0, 2)) == 0:
         case["fv"] = 5 - case["version"]      # the foreign service is of the other address version
     return case
@@ -625,8 +681,14 @@ def _service_orders(who, dirs):
             yield s
 
 
+_MK = [0]
+
+
 def _mk(kind, version, key, mode, n, trace):
-    return {"kind": kind, "version": version, "key": key, "await_all": mode, "progress": True, "n": n, "trace": trace}
+    _MK[0] += 1
+    j = _MK[0]
+    return {"kind": kind, "version": version, "key": key, "await_all": mode, "progress": True, "n": n, "trace": trace,
+            "last": j % 32, "burst": [0, 0, 2, 9][(j // 32) % 4] if j % 3 == 0 else 0}
 
 
 def own_only_cases(ndirs, kinds):
@@ -718,6 +780,18 @@ def rejected_after_events_cases():
                         yield c
 
 
+def last_char_cases():
+    """every base32 character as the last character of the own v2 address, for every kind whose address
+    is not tied to a real RSA key (o, n, i included by construction)"""
+    for last in range(32):
+        for kind, key in (("auth", "discard"), ("ephemeral", "none"), ("ephemeral", "discard"), ("fs", "none")):
+            c = _mk(kind, 2, key, bool(last % 2), last % 3,
+                    [["R"], ["o", "UPLOAD", 0], ["f", "UPLOAD", 0], ["o", "UPLOADED", 0]])
+            c["last"] = last
+            c["burst"] = 0
+            yield c
+
+
 def never_exists_cases():
     """Tor rejects the creating command (every reply position among a foreign service's events) or
     txtorcon refuses the key; with and without an application-owned HS_DESC listener."""
@@ -773,6 +847,7 @@ MANIFEST = {
 
 
 def run(ctx):
+    ctx.enumerate("uploads", last_char_cases(), name="own-address-last-char-x-kind")
     ctx.enumerate("uploads", own_only_cases(2, ALL_KINDS), name="own-2dirs-all-orders")
     if ctx.quick():
         ctx.enumerate("uploads", itertools.islice(reply_placement_cases(), 0, None, 37),
